@@ -24,7 +24,7 @@ NUM_RE = re.compile(r"#([id])(-?)(\d+)e(-?\d+)")
 KF = {
     "lone": "F6: a JSON string with an unpaired surrogate escape (e.g. \"\\ud800\") is valid JSON (encoding/json: U+FFFD) but is rejected by cue (literal.Unquote: unmatched surrogate pair)",
     "bom": "C10-raw-bom: a JSON string containing a raw U+FEFF is rejected by cue (scanner: illegal byte order mark); Value.MarshalJSON emits U+FEFF raw, so cue cannot read back its own output",
-    "exp": "C10-exponent-range: JSON numbers whose exponent (or adjusted exponent) leaves [-100000,100000] silently lose the exponent (1e100001 -> 1) or become NaN (1e2147483648), apd.SetString error ignored in literal.NumInfo.decimal",
+    "exp": "C10-exponent-range-rejected: JSON numbers whose exponent (or adjusted exponent) leaves [-100000,100000] (1e100001, 1e2147483648) are valid JSON (RFC 8259 lets an implementation limit the range) but are rejected by cue: literal.NumInfo.decimal reports apd's exponent-out-of-range error",
     "nfc": "C10-nfc-names: member names that need quoting in CUE are NFC-normalised by the compiler ({\"e\\u0301\":1} reads back with the name U+00E9); names are not preserved byte for byte",
     "qq": "C10-leading-quotes: a JSON string value that starts with two double quotes is re-quoted by PatchExpr as #\"\"\"...\"# (literal.String.WithOptionalHashes), which reads as a multi-line opener: the valid document is rejected",
     "dup": "C10-duplicate-names: objects with a repeated member name are unified instead of last-wins: {\"a\":1,\"a\":2} is rejected, {\"a\":{\"b\":1},\"a\":{\"c\":2}} reads as {\"a\":{\"b\":1,\"c\":2}}",
@@ -350,11 +350,8 @@ def run(ctx):
             # (it does not re-quote strings, so the F14 class passes it)
             val = fi.get("val", "-")
             if val == "PANIC":
-                if "#N" in fm["cue"]:
-                    known("exp")
-                else:
-                    bad("encoding/json.Validate panics on a document", c, i, m, doc=doc.decode("utf-8", "replace"))
-                    continue
+                bad("encoding/json.Validate panics on a document", c, i, m, doc=doc.decode("utf-8", "replace"))
+                continue
             elif val != "-" and (val == "ok") != (fi["cue"] != "REJECT"):
                 bad("encoding/json.Validate(doc, _) disagrees with json.Extract+BuildExpr on acceptance", c, i, m,
                     doc=doc.decode("utf-8", "replace"))
@@ -379,10 +376,6 @@ def run(ctx):
             nt = norm(truth)
             if norm(fi["walk"]) != nt:
                 bad("the built value differs from the generator's ground truth", c, i, m)
-                continue
-            nan = "#N" in fi["walk"]
-            if nan:
-                known("exp")
                 continue
             if norm(fm["spec"]) != nt or not kinds_compatible(truth, fm["spec"]):
                 bad("Value.MarshalJSON bytes read by the RFC 8259 model differ from the ground truth (data, key order, number value)",
@@ -503,7 +496,7 @@ MANIFEST = {
             "marshalled values (model and encoding/json vs generator truth), and literal-level cases.",
     "note": "partial: the CUE scanner/parser/evaluator between the JSON text and the value are covered by the correspondence only. "
             "Known findings F6 (unpaired surrogate escapes rejected), C10-raw-bom (raw U+FEFF in strings rejected; cue cannot read "
-            "back its own output), C10-exponent-range (exponents beyond apd's range silently dropped / NaN), C10-duplicate-names "
+            "back its own output), C10-exponent-range-rejected (numbers beyond apd's exponent range are rejected), C10-duplicate-names "
             "(repeated member names unified), C10-nfc-names (quoted member names NFC-normalised), C10-leading-quotes (strings "
             "starting with two quotes rejected). "
             "Trusted: Coq kernel, hand-written models (apd and encoding/json string escaping are third-party, modelled), extraction, "
